@@ -12,7 +12,7 @@ use std::collections::HashSet;
 use crate::core::cell_info::get_num_children;
 use crate::core::serialization::{
     cell_to_children, cell_to_parent, get_resolution, get_stride, is_first_child,
-    FIRST_HILBERT_RESOLUTION, MAX_RESOLUTION,
+    FIRST_HILBERT_RESOLUTION, HILBERT_START_BIT, MAX_RESOLUTION,
 };
 
 /// Expands a set of A5 cells to a target resolution by generating all descendant cells.
@@ -90,10 +90,12 @@ pub fn compact(cells: &[u64]) -> Result<Vec<u64>, String> {
     // Single sort and dedup
     let unique_cells: HashSet<u64> = cells.iter().copied().collect();
     let mut current_cells: Vec<u64> = unique_cells.into_iter().collect();
-    current_cells.sort_unstable();
+    // Sort hierarchically rather than numerically: the ids of resolution 0 cells interleave with
+    // the ids of resolution 1 cells of other faces, but siblings must be adjacent
+    current_cells.sort_unstable_by_key(|&cell| hierarchical_key(cell));
 
     // Compact until no more changes
-    // No re-sorting needed - parents maintain sorted order!
+    // No re-sorting needed - parents maintain hierarchical order!
     let mut changed = true;
     while changed {
         changed = false;
@@ -155,8 +157,25 @@ pub fn compact(cells: &[u64]) -> Result<Vec<u64>, String> {
             i += 1;
         }
 
+        // A parent may already be present in the input, in which case it is adjacent
+        result.dedup();
         current_cells = result;
     }
 
     Ok(current_cells)
+}
+
+/// Sort key which places every cell directly before its descendants, and siblings next to each other
+fn hierarchical_key(cell: u64) -> (u64, i32, u64) {
+    let resolution = get_resolution(cell);
+    if resolution < 0 {
+        return (0, resolution, cell);
+    }
+    // Clear resolution marker, so that a cell sorts together with its first child
+    let mut key = cell & (cell - 1);
+    if resolution == 0 {
+        // Resolution 0 stores the origin in the top 6 bits, finer resolutions 5 * origin + quintant
+        key = (5 * (key >> HILBERT_START_BIT)) << HILBERT_START_BIT;
+    }
+    (key, resolution, cell)
 }
